@@ -24,10 +24,30 @@
    height with the checkpoint's hash, of the branch OFFERED by the message,
    and the offered branch is valid header by header, matches the checkpoints
    and has strictly more work than the displaced headers
-   (reorg_truncated_atb_sound: it implies the Prop [reorg_truncated]). *)
+   (reorg_truncated_atb_sound: it implies the Prop [reorg_truncated]).
+
+   The positive half for reorganisations (C02_heavier_branch_adopted and
+   C02_heavier_branch_adopted_to_checkpoint, vocabulary in C02/SpecH.v, proofs
+   in C02/ProofsH.v) carries, besides the hypotheses above, exactly the
+   conditions the handler tests, each as an explicit hypothesis:
+   - forks_at: the first header names the stored header at height f as its
+     predecessor, f is strictly below the tip, and the first header is not the
+     stored header at height f + 1 (known headers are skipped, not a fork);
+   - every header of the message is valid on (stored chain up to f) ++ (the
+     earlier headers of the message) at the clock reading of the message;
+   - f is not below the newest checkpoint the stored chain has reached;
+   - the message carries strictly more work than the stored headers above f;
+   - listened_to: the sender is the sync peer or the client is current
+     (handleHeadersMsg: `hmsg.peer != b.SyncPeer() && !b.BlockHeadersSynced()`
+     makes the handler return without looking at the header);
+   - the branch stays below the next checkpoint (otherwise the header loop
+     stops there, F27: the second theorem says what is adopted then).
+   Nothing else is needed: in particular no condition on the fork point being
+   inside the in-memory window (the known-work walk falls back to the store),
+   and the message may be as long as wf_hist allows. *)
 From stdpp Require Import list.
 From Coq Require Import ZArith Lia.
-From Verif Require Import S2.Model C01.Spec C02.Spec C02.Truncated S2.Basics S2.Invariant C01.Proofs C02.Proofs.
+From Verif Require Import S2.Model C01.Spec C02.Spec C02.SpecH C02.Truncated S2.Basics S2.Invariant C01.Proofs C02.Proofs C02.ProofsH.
 Open Scope Z_scope.
 
 (* a headers message changes the chain only in a legal way (or by a truncated
@@ -81,6 +101,54 @@ Theorem C02_valid_extension_adopted : forall P gfh ops p now msg e,
   chain (step P s o) = e.
 Proof. exact valid_extension_adopted. Qed.
 Print Assumptions C02_valid_extension_adopted.
+
+(* a fully valid, strictly heavier branch that forks at height f, at or above
+   the newest checkpoint reached, stays below the next checkpoint and comes
+   from a peer the handler listens to, is adopted in full: afterwards the
+   block-header chain is the old one up to height f followed by the whole
+   message, the filter-header chain is cut to at most f + 1 entries, one
+   disconnect notification per displaced header was emitted (highest first),
+   and the sender is the sync peer *)
+Theorem C02_heavier_branch_adopted : forall P gfh ops p now msg f,
+  let o := OHeaders p now msg in
+  wf_params P -> no_collision P (ops ++ [o]) -> wf_hist P (ops ++ [o]) ->
+  let s := run P (init_state P gfh) ops in
+  let pre := take (Z.to_nat (f + 1)) (chain s) in
+  forks_at (chain s) msg f = true ->                                  (* a fork at height f, below the tip *)
+  valid_run P now pre msg = msg ->                                    (* every header valid on its prefix *)
+  reached_cp P (chain s) <= f ->                                      (* not below the newest reached checkpoint *)
+  work_of msg > work_of (drop (Z.to_nat (f + 1)) (chain s)) ->        (* strictly more work than it displaces *)
+  listened_to P now s p = true ->                                     (* sync peer, or the client is current *)
+  below_next_checkpoint P (chain s) (f + zlen msg) = true ->          (* the branch ends below the next checkpoint *)
+  let s' := step P s o in
+  chain s' = pre ++ msg /\
+  fchain s' = take (Z.to_nat (f + 1)) (fchain s) /\
+  events s' = events s ++ disconnects (chain s) f /\
+  syncPeer s' = Some p.
+Proof. exact heavier_branch_adopted. Qed.
+Print Assumptions C02_heavier_branch_adopted.
+
+(* the same without the last guard, for a branch that matches the hard-coded
+   checkpoints: it is adopted up to and including its first header on a
+   checkpoint height (the rest is re-requested; this is the F27 truncation) *)
+Theorem C02_heavier_branch_adopted_to_checkpoint : forall P gfh ops p now msg f,
+  let o := OHeaders p now msg in
+  wf_params P -> no_collision P (ops ++ [o]) -> wf_hist P (ops ++ [o]) ->
+  let s := run P (init_state P gfh) ops in
+  let pre := take (Z.to_nat (f + 1)) (chain s) in
+  forks_at (chain s) msg f = true ->
+  valid_run P now pre msg = msg ->
+  checkpoints_ok P (pre ++ msg) = true ->                             (* the branch matches the checkpoints *)
+  reached_cp P (chain s) <= f ->
+  work_of msg > work_of (drop (Z.to_nat (f + 1)) (chain s)) ->
+  listened_to P now s p = true ->
+  let s' := step P s o in
+  chain s' = pre ++ upto_checkpoint P f msg /\
+  fchain s' = take (Z.to_nat (f + 1)) (fchain s) /\
+  events s' = events s ++ disconnects (chain s) f /\
+  syncPeer s' = Some p.
+Proof. exact heavier_branch_adopted_to_checkpoint. Qed.
+Print Assumptions C02_heavier_branch_adopted_to_checkpoint.
 
 (* total work never decreases, except when headers are cut back because their
    branch failed a checkpoint (or by a truncated reorganisation) *)
@@ -136,5 +204,120 @@ Proof.
   | |- wf_params _ => split; cbn; lia
   | |- no_collision _ _ => apply no_collision_b_sound; vm_compute; reflexivity
   | |- wf_hist _ _ => apply wf_hist_intro; vm_compute; [reflexivity|discriminate]
+  end; vm_compute; reflexivity.
+Qed.
+
+(* non-vacuity of C02_heavier_branch_adopted: a history where every hypothesis
+   holds (sender = sync peer, client not current) and the reorganisation
+   happens, cutting the filter-header chain and emitting the disconnect; the
+   same branch from a peer that is NOT the sync peer while the client IS
+   current (the other disjunct of listened_to); and, with a checkpoint at
+   height 3, the hypotheses of C02_heavier_branch_adopted_to_checkpoint with
+   the branch taken up to the checkpoint *)
+Example C02_heavier_branch_nonvacuous :
+  let P := ex_P [] in
+  let o := OHeaders 1 ex_now exh_msg in
+  let s := run P (init_state P 7) exh_pre in
+  let o3 := OHeaders 2 3000 exh_msg in
+  let s3 := run P (init_state P 7) exh_pre3 in
+  let Pc := ex_P [(3, 203)] in
+  let oc := OHeaders 1 ex_now exh_msg_cp in
+  let sc := run Pc (init_state Pc 7) exh_pre in
+  (wf_params P /\ no_collision P (exh_pre ++ [o]) /\ wf_hist P (exh_pre ++ [o]) /\
+   forks_at (chain s) exh_msg 1 = true /\
+   valid_run P ex_now (take 2 (chain s)) exh_msg = exh_msg /\
+   reached_cp P (chain s) <= 1 /\
+   work_of exh_msg > work_of (drop 2 (chain s)) /\
+   listened_to P ex_now s 1 = true /\ is_sync s 1 = true /\ headers_synced P ex_now s = false /\
+   below_next_checkpoint P (chain s) (1 + zlen exh_msg) = true /\
+   map hid (chain s) = [100; 101; 102] /\ fchain s = [7; 8; 9] /\
+   map hid (chain (step P s o)) = [100; 101; 202; 203] /\ fchain (step P s o) = [7; 8] /\
+   events (step P s o) = events s ++ [EDisc 102 2 101]) /\
+  (no_collision P (exh_pre3 ++ [o3]) /\ wf_hist P (exh_pre3 ++ [o3]) /\
+   forks_at (chain s3) exh_msg 1 = true /\
+   valid_run P 3000 (take 2 (chain s3)) exh_msg = exh_msg /\
+   work_of exh_msg > work_of (drop 2 (chain s3)) /\
+   listened_to P 3000 s3 2 = true /\ is_sync s3 2 = false /\ headers_synced P 3000 s3 = true /\
+   syncPeer s3 = Some 1 /\
+   map hid (chain (step P s3 o3)) = [100; 101; 202; 203] /\ syncPeer (step P s3 o3) = Some 2) /\
+  (wf_params Pc /\ no_collision Pc (exh_pre ++ [oc]) /\ wf_hist Pc (exh_pre ++ [oc]) /\
+   forks_at (chain sc) exh_msg_cp 1 = true /\
+   valid_run Pc ex_now (take 2 (chain sc)) exh_msg_cp = exh_msg_cp /\
+   checkpoints_ok Pc (take 2 (chain sc) ++ exh_msg_cp) = true /\
+   work_of exh_msg_cp > work_of (drop 2 (chain sc)) /\
+   listened_to Pc ex_now sc 1 = true /\
+   below_next_checkpoint Pc (chain sc) (1 + zlen exh_msg_cp) = false /\
+   map hid (upto_checkpoint Pc 1 exh_msg_cp) = [202; 203] /\
+   map hid (chain (step Pc sc oc)) = [100; 101; 202; 203]).
+Proof.
+  cbv zeta.
+  repeat match goal with
+  | |- _ /\ _ => split
+  | |- wf_params _ => split; cbn; lia
+  | |- no_collision _ _ => apply no_collision_b_sound; vm_compute; reflexivity
+  | |- wf_hist _ _ => apply wf_hist_intro; vm_compute; [reflexivity|discriminate]
+  | |- _ <= _ => vm_compute; discriminate
+  | |- _ > _ => vm_compute; reflexivity
+  end; vm_compute; reflexivity.
+Qed.
+
+(* the hypothesis listened_to cannot be dropped: the same state and branch,
+   every other hypothesis of C02_heavier_branch_adopted holds, but the sender
+   is not the sync peer and the client is not current: the branch is ignored.
+   (Not a violation: the property speaks of peers the client listens to.) *)
+Example C02_heavier_branch_needs_listening :
+  let P := ex_P [] in
+  let o := OHeaders 2 ex_now exh_msg in
+  let s := run P (init_state P 7) exh_pre2 in
+  wf_params P /\ no_collision P (exh_pre2 ++ [o]) /\ wf_hist P (exh_pre2 ++ [o]) /\
+  forks_at (chain s) exh_msg 1 = true /\
+  valid_run P ex_now (take 2 (chain s)) exh_msg = exh_msg /\
+  reached_cp P (chain s) <= 1 /\
+  work_of exh_msg > work_of (drop 2 (chain s)) /\
+  below_next_checkpoint P (chain s) (1 + zlen exh_msg) = true /\
+  listened_to P ex_now s 2 = false /\
+  map hid (chain s) = [100; 101; 102] /\
+  map hid (chain (step P s o)) = [100; 101; 102].
+Proof.
+  cbv zeta.
+  repeat match goal with
+  | |- _ /\ _ => split
+  | |- wf_params _ => split; cbn; lia
+  | |- no_collision _ _ => apply no_collision_b_sound; vm_compute; reflexivity
+  | |- wf_hist _ _ => apply wf_hist_intro; vm_compute; [reflexivity|discriminate]
+  | |- _ <= _ => vm_compute; discriminate
+  | |- _ > _ => vm_compute; reflexivity
+  end; vm_compute; reflexivity.
+Qed.
+
+(* nor can the second half of forks_at: a message whose first header IS the
+   stored header above f satisfies every other hypothesis; the chain still
+   ends up as "old chain up to f, then the message" (known headers are
+   skipped, the rest extends the tip), but nothing is rolled back: the
+   filter-header chain is not cut and no disconnect is emitted *)
+Example C02_heavier_branch_needs_fork :
+  let P := ex_P [] in
+  let o := OHeaders 1 ex_now exh_msg_known in
+  let s := run P (init_state P 7) exh_pre in
+  wf_params P /\ no_collision P (exh_pre ++ [o]) /\ wf_hist P (exh_pre ++ [o]) /\
+  forks_at (chain s) exh_msg_known 1 = false /\
+  valid_run P ex_now (take 2 (chain s)) exh_msg_known = exh_msg_known /\
+  reached_cp P (chain s) <= 1 /\
+  work_of exh_msg_known > work_of (drop 2 (chain s)) /\
+  listened_to P ex_now s 1 = true /\
+  below_next_checkpoint P (chain s) (1 + zlen exh_msg_known) = true /\
+  chain (step P s o) = take 2 (chain s) ++ exh_msg_known /\
+  fchain (step P s o) = [7; 8; 9] /\ fchain (step P s o) <> take 2 (fchain s) /\
+  events (step P s o) = events s.
+Proof.
+  cbv zeta.
+  repeat match goal with
+  | |- _ /\ _ => split
+  | |- wf_params _ => split; cbn; lia
+  | |- no_collision _ _ => apply no_collision_b_sound; vm_compute; reflexivity
+  | |- wf_hist _ _ => apply wf_hist_intro; vm_compute; [reflexivity|discriminate]
+  | |- _ <= _ => vm_compute; discriminate
+  | |- _ > _ => vm_compute; reflexivity
+  | |- _ <> _ => vm_compute; discriminate
   end; vm_compute; reflexivity.
 Qed.
